@@ -126,7 +126,10 @@ def array_ufunc(ufunc, method, inputs, kwargs):
             and layout.parameter("__array__") is None
         ):
             if isinstance(layout.content, ak.layout.NumpyArray):
-                return True
+                return (
+                    layout.content.parameter("__record__") is None
+                    and layout.content.parameter("__array__") is None
+                )
             elif isinstance(layout.content, ak.layout.RegularArray):
                 return is_fully_regular(layout.content)
             else:
